@@ -418,9 +418,9 @@ theorem spanOf_finish (h : Heap) (id : Nat) : ∀ (tl : List Nat) (x : Nat),
   | _ :: _, x => spanOf_setParent _ _ _ x
 
 mutual
-theorem processNode_span (mm : Nat → List MetaAttr) (root : PT) : (n : PT) → ∀ (s : St) (v : Val) (s' : St),
+theorem processNode_span (tr : Heap → Nat → Bool) (mm : Nat → List MetaAttr) (root : PT) : (n : PT) → ∀ (s : St) (v : Val) (s' : St),
     n.WF → PT.Sub n root → Inv s → SI root s.heap → Pre s n.pos n.posEnd →
-    processNode mm n s = some (v, s') → Post root s s' n.pos n.posEnd
+    processNode tr mm n s = some (v, s') → Post root s s' n.pos n.posEnd
   | .term _ _ _ t, s, v, s', _, _, _, si, _, h => by
     simp only [processNode, Option.some.injEq, Prod.mk.injEq] at h
     obtain ⟨rfl, rfl⟩ := h
@@ -436,22 +436,22 @@ theorem processNode_span (mm : Nat → List MetaAttr) (root : PT) : (n : PT) →
     | [k], h, hk =>
       simp only [processNode] at h
       obtain ⟨kwf, ksub, k1, _, k2⟩ := hk.head
-      exact (processNode_span mm root k s v s' kwf ksub hi0 si (pre.mono k1 k2) h).widen k1 k2
+      exact (processNode_span tr mm root k s v s' kwf ksub hi0 si (pre.mono k1 k2) h).widen k1 k2
     | k :: k2 :: rest, h, hk =>
       simp only [processNode] at h
-      exact processFirstNT_span mm root (k :: k2 :: rest) _ _ s v s' hk hi0 si pre h
+      exact processFirstNT_span tr mm root (k :: k2 :: rest) _ _ s v s' hk hi0 si pre h
   | .nt (.obj cls) ks, s, v, s', hwf, hsub, hi0, si, pre, h => by
     have hk := KidsOK.of_node hwf hsub
     have hne := hwf.nonempty
     simp only [processNode, St.next] at h
     have hi1 := hi0.alloc (o := newObj mm cls ks) rfl (contIdsL_init _)
-    cases hkk : processKids mm ks { heap := s.heap ++ [newObj mm cls ks], stack := s.heap.length :: s.stack } with
+    cases hkk : processKids tr mm ks { heap := s.heap ++ [newObj mm cls ks], stack := s.heap.length :: s.stack } with
     | none => simp [hkk] at h
     | some s2 =>
       simp only [hkk, Option.some.injEq, Prod.mk.injEq] at h
       obtain ⟨rfl, rfl⟩ := h
-      have st := processKids_post mm ks _ s2 hi1 hkk
-      have pk := processKids_span mm root ks _ _ _ s2 hk (Nat.le_of_lt hne) hi1
+      have st := processKids_post tr mm ks _ s2 hi1 hkk
+      have pk := processKids_span tr mm root ks _ _ _ s2 hk (Nat.le_of_lt hne) hi1
         (si.alloc hi0 mm cls ks hsub) (Pre.alloc s mm cls ks) hkk
       -- spans, contained ids and attributes are not affected by the parent assignment
       have hsi := SI.finish s.heap.length pk.si s2.stack.tail
@@ -499,16 +499,16 @@ theorem processNode_span (mm : Nat → List MetaAttr) (root : PT) : (n : PT) →
           | .one v0, k :: _, h, hk =>
             obtain ⟨kwf, ksub, k1, _, k2⟩ := hk.head
             simp only [] at h
-            by_cases hv : v0.truthy = true
+            by_cases hv : v0.truthyIn tr s.heap = true
             · simp [hv] at h
             · simp only [hv, Bool.false_eq_true, if_false] at h
-              cases hkk : processNode mm k s with
+              cases hkk : processNode tr mm k s with
               | none => simp [hkk] at h
               | some r =>
                 obtain ⟨val, s1⟩ := r
                 simp only [hkk] at h
-                have ihp := processNode_post mm k s val s1 hi0 hkk
-                have ih := processNode_span mm root k s val s1 kwf ksub hi0 si (pre.mono k1 k2) hkk
+                have ihp := processNode_post tr mm k s val s1 hi0 hkk
+                have ih := processNode_span tr mm root k s val s1 kwf ksub hi0 si (pre.mono k1 k2) hkk
                 by_cases hc : m.cont = true
                 · simp only [hc, if_true, Option.some.injEq, Prod.mk.injEq] at h
                   obtain ⟨rfl, rfl⟩ := h
@@ -524,13 +524,13 @@ theorem processNode_span (mm : Nat → List MetaAttr) (root : PT) : (n : PT) →
           | .many _, k :: _, h, hk =>
             obtain ⟨kwf, ksub, k1, _, k2⟩ := hk.head
             simp only [] at h
-            cases hkk : processNode mm k s with
+            cases hkk : processNode tr mm k s with
             | none => simp [hkk] at h
             | some r =>
               obtain ⟨val, s1⟩ := r
               simp only [hkk] at h
-              have ihp := processNode_post mm k s val s1 hi0 hkk
-              have ih := processNode_span mm root k s val s1 kwf ksub hi0 si (pre.mono k1 k2) hkk
+              have ihp := processNode_post tr mm k s val s1 hi0 hkk
+              have ih := processNode_span tr mm root k s val s1 kwf ksub hi0 si (pre.mono k1 k2) hkk
               by_cases hc : m.cont = true
               · simp only [hc, if_true, Option.some.injEq, Prod.mk.injEq] at h
                 obtain ⟨rfl, rfl⟩ := h
@@ -544,36 +544,36 @@ theorem processNode_span (mm : Nat → List MetaAttr) (root : PT) : (n : PT) →
                 obtain ⟨rfl, rfl⟩ := h
                 exact ih.widen k1 k2
         | many =>
-          cases hkk : processItems mm top a m.cont ks s with
+          cases hkk : processItems tr mm top a m.cont ks s with
           | none => simp [hkk] at h
           | some s1 =>
             simp only [hkk, Option.some.injEq, Prod.mk.injEq] at h
             obtain ⟨rfl, rfl⟩ := h
-            exact processItems_span mm root ks _ _ top a m.cont s s1 hk (Nat.le_of_lt hwf.nonempty) hi0 si pre htop hkk
+            exact processItems_span tr mm root ks _ _ top a m.cont s s1 hk (Nat.le_of_lt hwf.nonempty) hi0 si pre htop hkk
 
-theorem processKids_span (mm : Nat → List MetaAttr) (root : PT) : (ks : List PT) → ∀ (lo hi : Nat) (s s' : St),
+theorem processKids_span (tr : Heap → Nat → Bool) (mm : Nat → List MetaAttr) (root : PT) : (ks : List PT) → ∀ (lo hi : Nat) (s s' : St),
     KidsOK root ks lo hi → lo ≤ hi → Inv s → SI root s.heap → Pre s lo hi →
-    processKids mm ks s = some s' → Post root s s' lo hi
+    processKids tr mm ks s = some s' → Post root s s' lo hi
   | [], lo, hi, s, s', _, _, _, si, _, h => by
     simp only [processKids, Option.some.injEq] at h
     subst h; exact Post.refl si
   | k :: ks, lo, hi, s, s', hk, _, hi0, si, pre, h => by
     simp only [processKids] at h
     obtain ⟨kwf, ksub, k1, k3, k2⟩ := hk.head
-    cases hkk : processNode mm k s with
+    cases hkk : processNode tr mm k s with
     | none => simp [hkk] at h
     | some r =>
       obtain ⟨val, s1⟩ := r
       simp only [hkk] at h
-      have ihp := processNode_post mm k s val s1 hi0 hkk
-      have ih := processNode_span mm root k s val s1 kwf ksub hi0 si (pre.mono k1 k2) hkk
+      have ihp := processNode_post tr mm k s val s1 hi0 hkk
+      have ih := processNode_span tr mm root k s val s1 kwf ksub hi0 si (pre.mono k1 k2) hkk
       have pre1 : Pre s1 k.posEnd hi := Pre.next hi0 ihp.1 pre ih.new (by omega)
-      have p2 := processKids_span mm root ks k.posEnd hi s1 s' hk.tail k2 ihp.1.inv ih.si pre1 h
-      exact Post.chain ih (processKids_post mm ks s1 s' ihp.1.inv h) p2 k1 (Nat.le_of_lt k3) k2
+      have p2 := processKids_span tr mm root ks k.posEnd hi s1 s' hk.tail k2 ihp.1.inv ih.si pre1 h
+      exact Post.chain ih (processKids_post tr mm ks s1 s' ihp.1.inv h) p2 k1 (Nat.le_of_lt k3) k2
 
-theorem processFirstNT_span (mm : Nat → List MetaAttr) (root : PT) : (ks : List PT) → ∀ (lo hi : Nat) (s : St)
+theorem processFirstNT_span (tr : Heap → Nat → Bool) (mm : Nat → List MetaAttr) (root : PT) : (ks : List PT) → ∀ (lo hi : Nat) (s : St)
     (v : Val) (s' : St), KidsOK root ks lo hi → Inv s → SI root s.heap → Pre s lo hi →
-    processFirstNT mm ks s = some (v, s') → Post root s s' lo hi
+    processFirstNT tr mm ks s = some (v, s') → Post root s s' lo hi
   | [], lo, hi, s, v, s', _, _, si, _, h => by
     simp only [processFirstNT, Option.some.injEq, Prod.mk.injEq] at h
     obtain ⟨rfl, rfl⟩ := h
@@ -582,14 +582,14 @@ theorem processFirstNT_span (mm : Nat → List MetaAttr) (root : PT) : (ks : Lis
     simp only [processFirstNT] at h
     by_cases ht : k.isTerm = true
     · simp only [ht, if_true] at h
-      exact processFirstNT_span mm root ks lo hi s v s' hk.tail_same hi0 si pre h
+      exact processFirstNT_span tr mm root ks lo hi s v s' hk.tail_same hi0 si pre h
     · simp only [ht, Bool.false_eq_true, if_false] at h
       obtain ⟨kwf, ksub, k1, _, k2⟩ := hk.head
-      exact (processNode_span mm root k s v s' kwf ksub hi0 si (pre.mono k1 k2) h).widen k1 k2
+      exact (processNode_span tr mm root k s v s' kwf ksub hi0 si (pre.mono k1 k2) h).widen k1 k2
 
-theorem processItems_span (mm : Nat → List MetaAttr) (root : PT) : (ks : List PT) → ∀ (lo hi top a : Nat)
+theorem processItems_span (tr : Heap → Nat → Bool) (mm : Nat → List MetaAttr) (root : PT) : (ks : List PT) → ∀ (lo hi top a : Nat)
     (cont : Bool) (s s' : St), KidsOK root ks lo hi → lo ≤ hi → Inv s → SI root s.heap → Pre s lo hi →
-    s.stack.head? = some top → processItems mm top a cont ks s = some s' → Post root s s' lo hi
+    s.stack.head? = some top → processItems tr mm top a cont ks s = some s' → Post root s s' lo hi
   | [], lo, hi, top, a, cont, s, s', _, _, _, si, _, _, h => by
     simp only [processItems, Option.some.injEq] at h
     subst h; exact Post.refl si
@@ -597,16 +597,16 @@ theorem processItems_span (mm : Nat → List MetaAttr) (root : PT) : (ks : List 
     simp only [processItems] at h
     by_cases hsep : k.isSep = true
     · simp only [hsep, if_true] at h
-      exact processItems_span mm root ks lo hi top a cont s s' hk.tail_same hlh hi0 si pre htop h
+      exact processItems_span tr mm root ks lo hi top a cont s s' hk.tail_same hlh hi0 si pre htop h
     · simp only [hsep, Bool.false_eq_true, if_false] at h
       obtain ⟨kwf, ksub, k1, k3, k2⟩ := hk.head
-      cases hkk : processNode mm k s with
+      cases hkk : processNode tr mm k s with
       | none => simp [hkk] at h
       | some r =>
         obtain ⟨val, s1⟩ := r
         simp only [hkk] at h
-        have ihp := processNode_post mm k s val s1 hi0 hkk
-        have ih := processNode_span mm root k s val s1 kwf ksub hi0 si (pre.mono k1 k2) hkk
+        have ihp := processNode_post tr mm k s val s1 hi0 hkk
+        have ih := processNode_span tr mm root k s val s1 kwf ksub hi0 si (pre.mono k1 k2) hkk
         by_cases hc : cont = true
         · simp only [hc, if_true] at h
           have st2 : Step s { s1 with heap := s1.heap.updAttr top a (AVal.append val) } :=
@@ -619,17 +619,17 @@ theorem processItems_span (mm : Nat → List MetaAttr) (root : PT) : (ks : List 
             rw [spanOf_updAttr] at hsx
             exact ih.new x sp hx hsx
           have pre2 := Pre.next hi0 st2 pre p1.new (by omega)
-          have p2 := processItems_span mm root ks k.posEnd hi top a true _ s' hk.tail k2 st2.inv hsi pre2
+          have p2 := processItems_span tr mm root ks k.posEnd hi top a true _ s' hk.tail k2 st2.inv hsi pre2
             (by rw [st2.stack]; exact htop) h
-          exact Post.chain p1 (processItems_post mm ks top a true _ s' st2.inv (by rw [st2.stack]; exact htop) h) p2
+          exact Post.chain p1 (processItems_post tr mm ks top a true _ s' st2.inv (by rw [st2.stack]; exact htop) h) p2
             k1 (Nat.le_of_lt k3) k2
         · simp only [hc, Bool.false_eq_true, if_false] at h
           have hc' : cont = false := by simpa using hc
           subst hc'
           have pre1 : Pre s1 k.posEnd hi := Pre.next hi0 ihp.1 pre ih.new (by omega)
-          have p2 := processItems_span mm root ks k.posEnd hi top a false s1 s' hk.tail k2 ihp.1.inv ih.si pre1
+          have p2 := processItems_span tr mm root ks k.posEnd hi top a false s1 s' hk.tail k2 ihp.1.inv ih.si pre1
             (by rw [ihp.1.stack]; exact htop) h
-          exact Post.chain ih (processItems_post mm ks top a false s1 s' ihp.1.inv (by rw [ihp.1.stack]; exact htop) h)
+          exact Post.chain ih (processItems_post tr mm ks top a false s1 s' ihp.1.inv (by rw [ihp.1.stack]; exact htop) h)
             p2 k1 (Nat.le_of_lt k3) k2
 end
 
